@@ -406,3 +406,36 @@ fn rewrite_vars(v: &Value, prefix: &str) -> Value {
         x => x.clone(),
     }
 }
+
+/// Type grid: every operand tuple (1..3 operands) over `alphabet::type_grid` for the given operators,
+/// operands written in the rule and read from the data: a change confined to one cell of an operator's
+/// type table (one ordered pair of types, one representation of numbers in one position) is inside it.
+pub fn type_grid_probes(ctx: &mut Ctx, ops: &[&str]) {
+    use crate::alphabet::op;
+    let t = crate::alphabet::type_grid();
+    for k in ops {
+        for n in 1..=3usize {
+            if !crate::refmodel::arity_ok(k, n) {
+                continue;
+            }
+            // three operands: the third ranges over a sub-grid
+            let third: Vec<Value> = if n == 3 { t.iter().step_by(3).cloned().collect() } else { vec![Value::Null] };
+            for a in &t {
+                if !ctx.mine() {
+                    continue;
+                }
+                let seconds: Vec<Value> = if n >= 2 { t.clone() } else { vec![Value::Null] };
+                for b in &seconds {
+                    for c in &third {
+                        ctx.edge();
+                        let args: Vec<Value> = [a, b, c].iter().take(n).map(|x| (*x).clone()).collect();
+                        if !args.iter().any(crate::alphabet::is_operation_shaped) {
+                            ctx.check("type-grid:L", &op(k, args.clone()), &Value::Null);
+                        }
+                        ctx.check("type-grid:V", &op(k, (0..n).map(|i| json!({"var": i})).collect()), &Value::Array(args));
+                    }
+                }
+            }
+        }
+    }
+}
